@@ -143,6 +143,9 @@ class Scripted:
                 plan[("sendall", script.get("send_fault_at", 0))] = mk_exc(script["send_fault"])
             else:
                 plan[("sendall-after", script.get("send_fault_at", 0))] = (after, mk_exc(script["send_fault"]))
+        self.world.close_fault_leaves_open = bool(script.get("close_leaves_open"))
+        if script.get("close_fault"):
+            plan[("close", 0)] = mk_exc(script["close_fault"])       # the first close() of this call raises (before or after releasing the descriptor)
         self.world.arm(plan)
 
 
